@@ -104,8 +104,8 @@ def run_local(case, drv):
     zc, zr, _ = unobserved_info(r)
     tags = dict(kind=kind, nparents=len(ps), unobserved_configs=min(zc, 3), unobserved_state=zr, r=len(r["cols"][0]))
     if not close_score(got, exp):
-        return fail(f"{kind}.local_score({names[v]} | {[names[p] for p in ps]}): impl {got!r} closed form {exp!r} "
-                    f"(counts {r['cols']}, ess {case['ess']})", **tags)
+        return fail({"msg": f"{kind}.local_score({names[v]} | {[names[p] for p in ps]}): impl {got!r} closed form {exp!r} "
+                            f"(counts {r['cols']}, ess {case['ess']})", "impl": got, "locals": [r["cols"]], "nedges": None}, **tags)
     # row order and parent order must not matter
     if len(ps) == 2:
         got2 = float(s.local_score(names[v], [names[p] for p in reversed(ps)]))
@@ -128,12 +128,14 @@ def gen_network(rng, tier):
     return case
 
 
-def network_expected(case, drv, edges, kind, ess):
+def network_expected(case, drv, edges, kind, ess, locals_out=None):
     n = len(case["cols"])
     tot = 0.0
     for v in range(n):
         ps = [u for u, w in edges if w == v]
-        val, _ = model_local(drv, case, v, ps, kind, ess)
+        val, r_ = model_local(drv, case, v, ps, kind, ess)
+        if locals_out is not None:
+            locals_out.append(r_["cols"])
         tot += val
     if kind == "bds":
         tot += -(len(edges) + n * (n - 1) / 2.0) * math.log(2.0)
@@ -146,7 +148,8 @@ def run_network(case, drv):
     kind, ess = case["kind"], Fraction(case["ess"])
     df = c06.make_df(case)
     m = c06.build_model(case)
-    exp = network_expected(case, drv, case["edges"], kind, ess)
+    locs = []
+    exp = network_expected(case, drv, case["edges"], kind, ess, locs)
     try:
         if case["wrapper"] and kind != "aic" and case["pass_state_names"] is False:
             kw = {"equivalent_sample_size": float(ess)} if kind in ("bdeu", "bds") else {}
@@ -156,7 +159,8 @@ def run_network(case, drv):
     except Exception as e:
         return fail(f"{kind} network score raised {type(e).__name__}: {e}", kind=kind)
     if not close_score(got, exp):
-        return fail(f"{kind}.score(model): impl {got!r}, sum of closed-form local scores + prior {exp!r}", kind=kind)
+        return fail({"msg": f"{kind}.score(model): impl {got!r}, sum of closed-form local scores + prior {exp!r}", "impl": got, "locals": locs,
+                     "nedges": len(case["edges"]), "nnodes": len(names)}, kind=kind)
     return ok(nontrivial=bool(case["edges"]), kind=kind, wrapper=case["wrapper"])
 
 
